@@ -504,3 +504,45 @@ impl SimProp for C19 {
         v
     }
 }
+
+struct StderrLog;
+impl log::Log for StderrLog {
+    fn enabled(&self, _: &log::Metadata<'_>) -> bool {
+        true
+    }
+    fn log(&self, r: &log::Record<'_>) {
+        eprintln!("{}", r.args());
+    }
+    fn flush(&self) {}
+}
+static LOGGER: StderrLog = StderrLog;
+
+/// debugging aid: print the processing log of a replay file's case
+pub fn dump(path: &str) {
+    if std::env::var("VERIF_SIMLOG").is_ok() {
+        let _ = log::set_logger(&LOGGER);
+        log::set_max_level(log::LevelFilter::Debug);
+    }
+    let doc: Value = serde_json::from_str(&std::fs::read_to_string(path).expect("read")).expect("json");
+    let Some(case) = SimCase::from_json(&doc["case"]) else {
+        println!("not a simulator case");
+        return;
+    };
+    match run_sim(&case) {
+        Err(p) => println!("panic: {p}"),
+        Ok(out) => {
+            for (i, s) in out.steps.iter().enumerate() {
+                let tr = out.trace.get(i);
+                println!(
+                    "{i:4} t={:>14} {} {}{} {} -> {:?}",
+                    s.t,
+                    if s.client { "C" } else { "S" },
+                    KIND_NAMES[s.kind as usize],
+                    if matches!(s.kind, 4 | 6 | 8 | 9) { format!("[m{}]", s.id) } else { String::new() },
+                    tr.map(|t| format!("pad={} byp={} rep={}", t.padding as u8, t.bypass as u8, t.replace as u8)).unwrap_or_default(),
+                    s.actions.iter().map(|a| format!("{}(m{} b{} r{} t{} to{} dur{})", ["Cancel","Pad","Block","Timer"][a.kind as usize], a.machine, a.bypass as u8, a.replace as u8, a.timer, a.timeout_ns, a.duration_ns)).collect::<Vec<_>>()
+                );
+            }
+        }
+    }
+}
